@@ -33,14 +33,14 @@ def gen_name(rnd, medium, maxlen=12):
 def gen_file(rnd, medium, length=None, unique=None, maxname=12):
     if length is None:
         length = rnd.choice(TAPE_LEN if medium == "tape" else DISK_LEN) if rnd.random() < 0.85 else rnd.randrange(0, 7000)
-    kind = rnd.choice(["ml", "ml", "basic", "ascii", "data"]) if medium == "disk" else rnd.choice(["ml", "ml", "basic", "ascii", "data", "text"])
-    t, dt = {"ml": (2, 0), "basic": (0, 0), "ascii": (0, 0xFF), "data": (1, 0xFF), "text": (3, 0xFF)}[kind]
+    kind = rnd.choice(["ml", "ml", "basic", "ascii", "data", "ml-ascii", "data-bin"]) if medium == "disk" else rnd.choice(["ml", "ml", "basic", "ascii", "data", "text"])
+    t, dt = {"ml": (2, 0), "basic": (0, 0), "ascii": (0, 0xFF), "data": (1, 0xFF), "text": (3, 0xFF), "ml-ascii": (2, 0xFF), "data-bin": (1, 0)}[kind]
     if medium == "tape" and rnd.random() < 0.2:
         dt = rnd.choice([0, 0xFF])
     name = gen_name(rnd, medium, maxname)
     if unique is not None:
         name = ("%d%s" % (unique, name))[:maxname] if medium == "disk" else name
-    ext = {"ml": "BIN", "basic": "BAS", "ascii": "BAS", "data": "DAT", "text": "TXT"}[kind][:rnd.choice([3, 3, 3, 2, 1, 0])] if medium == "disk" else ""
+    ext = {"ml": "BIN", "basic": "BAS", "ascii": "BAS", "data": "DAT", "text": "TXT", "ml-ascii": "BIN", "data-bin": "DAT"}[kind][:rnd.choice([3, 3, 3, 2, 1, 0])] if medium == "disk" else ""
     return {"name": name, "ext": ext, "type": t, "dtype": dt, "gaps": rnd.choice([None, None, 0x00, 0xFF]) if medium == "tape" else None,
             "load": rnd.choice(ADDR + [rnd.randrange(65536)]),
             "exec": rnd.choice(ADDR + [rnd.randrange(65536)]), "data": content(rnd, length).hex(), "kind": kind}
